@@ -23,6 +23,8 @@ func c05CellText(mode string, v V) string {
 		return "<null>"
 	case KInt:
 		return fmt.Sprint(v.I)
+	case KFloat:
+		return fmt.Sprint(v.F) // whole numbers print without a fraction in every mode
 	case KBool:
 		if v.B {
 			return "true"
@@ -261,8 +263,32 @@ func init() {
 				}
 			}
 		}
+		// a JSON source that spans several parser batches (64 lines each): limits around the batch boundaries,
+		// so the early stop happens while other batches are still in flight
+		{
+			var rows [][]V
+			for i := 0; i < 130; i++ {
+				rows = append(rows, []V{Int(int64(i % 7)), Str(fmt.Sprintf("r%03d", i))})
+			}
+			big := mkJSON("t", []string{"a", "b"}, rows)
+			for _, lim := range []int{0, 1, 63, 64, 65, 129, 130, 131} {
+				for _, ob := range [][]Order{nil, {{E: Col("t.b"), Desc: true}}, {{E: Col("t.a")}, {E: Col("t.b")}}} {
+					q := NewQuery()
+					q.From = &From{Table: big}
+					q.Proj = []Proj{{Star: true}}
+					q.OrderBy = ob
+					q.Limit = lim
+					n := NewQuery()
+					n.From = &From{Sub: cloneQuery(q), Alias: "s"}
+					n.Proj = []Proj{{Star: true}}
+					for _, m := range c05Modes {
+						cases = append(cases, cs{q, m}, cs{n, m})
+					}
+				}
+			}
+		}
 		r.Bound = map[string]interface{}{"tables": len(tables), "distinct_rows": nrows, "max_rows": 4, "limits": limits, "order_by_forms": len(orders), "modes": c05Modes, "cases": len(cases)}
-		r.Rule = "LIMIT n (n=0..4) x ORDER BY {none, a, a DESC, b DESC+a} x every multiset of <=4 rows over 3 (4) distinct rows (duplicates straddle the cut) x {top level, inside a FROM subquery, over a counting-triggered GROUP BY that emits retractions} x all five output modes, through the real root command in-process; each mode's output is parsed (final table frame, csv, json, consolidated native stream) and compared with the reference; non-trivial = case where the limit actually cuts rows"
+		r.Rule = "LIMIT n (n=0..4) x ORDER BY {none, a, a DESC, b DESC+a} x every multiset of <=4 rows over 3 (4) distinct rows (duplicates straddle the cut) x {top level, inside a FROM subquery, over a counting-triggered GROUP BY that emits retractions} x all five output modes, plus a 130-line JSON source (three parser batches) with limits around the batch boundaries, through the real root command in-process; each mode's output is parsed (final table frame, csv, json, consolidated native stream) and compared with the reference; non-trivial = case where the limit actually cuts rows"
 		r.Assume("values are short, comma/quote free Int/String/NULL so every format parses unambiguously", "tie order unspecified; a tie group split by the cut may contribute any of its members", "LIMIT without ORDER BY: any min(n,N) rows")
 		cache := newFPCache()
 		enum.Parallel(len(cases), func(i int) {
